@@ -19,6 +19,11 @@ var c05Table = []c05Construct{
 	{"composer", "caret", []int{2, 3}, []string{""}},
 	{"composer", "tilde", []int{2, 3}, []string{""}},
 	{"composer", "wildcard", []int{1, 2}, []string{""}},
+	{"composer", "wildcardx", []int{1, 2}, []string{""}},
+	{"composer", "wildcard**", []int{1}, []string{""}},
+	{"composer", "wildcardxx", []int{1}, []string{""}},
+	{"npm", "xrange*", []int{1, 2}, []string{""}},
+	{"npm", "xrangexx", []int{1}, []string{""}},
 	{"conan", "tilde", []int{1, 2, 3}, []string{""}},
 	{"conan", "caret", []int{1, 2, 3}, []string{""}},
 	{"gem", "pessimistic", []int{1, 2, 3}, []string{""}},
